@@ -742,6 +742,36 @@ fn bounded_large_log_records_survive_reopen_and_stay_checked() {
     }
 }
 
+/// bound: one failed WAL append right after a reopen (the segment path is a directory while the writer is opened: EISDIR; the
+/// version it drew is burned), followed by {explicit checkpoint, no checkpoint} x {1, 3} later puts, and two further reopens
+#[test]
+fn bounded_failed_append_version_gap_survives_restarts() {
+    for with_checkpoint in [true, false] { for later in [1usize, 3] {
+        let what = format!("checkpoint after the failed append: {with_checkpoint}, {later} later put(s)");
+        let dir = tempfile::tempdir().unwrap(); let parking = tempfile::tempdir().unwrap();
+        let open = || crate::Cas::<String>::open(dir.path(), fault_cfg()).unwrap_or_else(|e| panic!("{what}: reopen fails: {e:?}"));
+        { let cas = open(); sput(&cas, "k1", b"one").unwrap(); sput(&cas, "k2", b"two").unwrap(); }
+        {
+            let cas = open();
+            let seg0 = dir.path().join("0_index.wal"); let parked = parking.path().join("0_index.wal");
+            std::fs::rename(&seg0, &parked).unwrap(); std::fs::create_dir(&seg0).unwrap();
+            let failed = sput(&cas, "k3", b"three");
+            std::fs::remove_dir(&seg0).unwrap(); std::fs::rename(&parked, &seg0).unwrap();
+            if failed.is_ok() { continue; }   // the implementation did not need to open the segment: no fault was injected
+            assert_eq!(sget(&cas, "k3"), None, "{what}: the failed put left its key untouched");
+            if with_checkpoint { cas.checkpoint().unwrap_or_else(|e| panic!("{what}: checkpoint after a failed append: {e:?}")); }
+        }
+        { let cas = open(); for i in 0..later { sput(&cas, &format!("later{i}"), format!("v{i}").as_bytes()).unwrap_or_else(|e| panic!("{what}: put after the reopen: {e}")); } }
+        for round in 0..2 {
+            let cas = open();
+            assert_eq!(sget(&cas, "k1").as_deref(), Some(&b"one"[..]), "{what}, reopen {round}: k1");
+            assert_eq!(sget(&cas, "k2").as_deref(), Some(&b"two"[..]), "{what}, reopen {round}: k2");
+            assert_eq!(sget(&cas, "k3"), None, "{what}, reopen {round}: the failed put must stay invisible");
+            for i in 0..later { assert_eq!(sget(&cas, &format!("later{i}")).as_deref(), Some(format!("v{i}").as_bytes()), "{what}, reopen {round}: the put `later{i}` was acknowledged after the failed append and must survive every reopen"); }
+        }
+    } }
+}
+
 /// bound: one store whose only garbage is a staging file left by a crashed transaction
 #[test]
 fn bounded_cleanup_of_staging_leftover_alone() {
